@@ -29,6 +29,8 @@ pub fn check_node_poll(w: &mut World, cid: Cid, flag: u8, parts: &[u64]) {
     let mut fair: Vec<String> = vec![];
     let always: Vec<usize> = w.ch[cid].kids.iter().enumerate().filter(|(_, k)| w.ch[**k].always_ready).map(|(i, _)| i).collect();
     let was_finished = w.ch[cid].model.finished;
+    // wait_until over a non-fused inner stream: the inner's `None` is not final if the consumer polls again
+    let inner_resumes = fam == Fam::WaitS && w.ch[cid].kids.first().map(|k| w.resumes(*k)).unwrap_or(false);
     let m = &mut w.ch[cid].model;
     // expected (flag, parts)
     let mut exp: (u8, Vec<u64>) = (0, vec![]);
@@ -226,7 +228,7 @@ pub fn check_node_poll(w: &mut World, cid: Cid, flag: u8, parts: &[u64]) {
                         Res::End => (4, vec![]),
                         _ => (0, vec![]),
                     };
-                    if matches!(r, Res::Ok(_) | Res::Err(_) | Res::End) {
+                    if matches!(r, Res::Ok(_) | Res::Err(_) | Res::End) && !inner_resumes {
                         m.finished = true;
                     }
                     decided_at = Some(k);
